@@ -103,6 +103,10 @@ func newC12World(t *testing.T, rt *rapid.T) *c12World {
 	if rapid.Bool().Draw(rt, "nested") {
 		mk("a/b/", false)
 	}
+	if rapid.Bool().Draw(rt, "prefixSibling") {
+		// a sibling whose name merely starts with the other's name is not below it
+		mk("ab/", false)
+	}
 	mk("s/", true)
 	// mounts, policy and tokens in every namespace
 	id := 0
@@ -330,6 +334,45 @@ func TestVerif_C12_Confinement(t *testing.T) {
 						}
 					}
 				}
+				nontrivial = true
+			},
+			// a token with an operator-chosen id writes to its cubbyhole and is revoked; a new token created later with
+			// the same id is a different token: it must not see the old data
+			"cubbyhole-after-token-id-reuse": func(rt *rapid.T) {
+				w.nwrite++
+				id := fmt.Sprintf("c12custom%d", w.nwrite)
+				mkTok := func() string {
+					r := tc.req(logical.UpdateOperation, "auth/token/create", tc.root, map[string]any{"id": id, "policies": []string{"all", "default"}, "ttl": "1h"})
+					if !r.ok() || r.resp == nil || r.resp.Auth == nil {
+						t.Fatalf("harness: token with custom id: %v", r)
+					}
+					return r.resp.Auth.ClientToken
+				}
+				tok := mkTok()
+				marker := fmt.Sprintf("CUBBY-%d", w.nwrite)
+				if r := tc.req(logical.UpdateOperation, "cubbyhole/c", tok, map[string]any{"v": marker}); !r.ok() {
+					fail("cubbyhole-write-failed", fmt.Sprintf("cubbyhole write with a live custom-id token failed: %v", r))
+				}
+				how := []string{"auth/token/revoke", "auth/token/revoke-self", "auth/token/revoke-orphan"}[fairIndex(rt, "revokeHow", 3)]
+				var r rr
+				if how == "auth/token/revoke-self" {
+					r = tc.req(logical.UpdateOperation, how, tok, nil)
+				} else {
+					r = tc.req(logical.UpdateOperation, how, tc.root, map[string]any{"token": tok})
+				}
+				if !r.ok() {
+					t.Fatalf("harness: %s: %v", how, r)
+				}
+				tok2 := mkTok()
+				rr2 := tc.req(logical.ReadOperation, "cubbyhole/c", tok2, nil)
+				w.logf("custom-id token %s: cubbyhole write, %s, same id created again, read -> %v", id, how, rr2)
+				if rr2.resp != nil && rr2.resp.Data != nil {
+					if got, _ := rr2.resp.Data["v"].(string); got != "" {
+						fail("cubbyhole-survives-its-token", fmt.Sprintf("cubbyhole value %q written by a token that was revoked (%s) is readable with a new token created with the same id", got, how))
+					}
+				}
+				tc.req(logical.UpdateOperation, "auth/token/revoke", tc.root, map[string]any{"token": tok2})
+				cubbyN++
 				nontrivial = true
 			},
 			// a token of one namespace whose policy NAME points into another namespace ("../<uuid>/all"): policy names are
